@@ -247,14 +247,26 @@ class InternalCompiler(Compiler):
             elif isinstance(e, Not) and not isinstance(
                 e.args[0], Symbol
             ):  # fixes edge case:
-                d = self.compile_expr(qc, e.args[0], dest=d)
+                self.xor_into(qc, e.args[0], d)
                 qc.x(d)
             # 2.5 Otherwise compile the expression
             else:
-                d = self.compile_expr(qc, e, dest=d)
+                self.xor_into(qc, e, d)
 
         self.expqmap[expr] = d
         return d
+
+    def xor_into(self, qc, expr, d):
+        """Xor the value of expr into the accumulator qubit d"""
+        r = self.compile_expr(qc, expr, dest=d)
+
+        # the expression lives on another qubit (already computed, or a constant): accumulate it
+        if r != d:
+            qc.cx(r, d)
+            qc.mark_ancilla(r)
+
+        # d holds a partial sum, not the value of any sub-expression computed into it
+        self.expqmap.remove([d])
 
     def compile_symbol(self, qc, expr, dest=None, sym=None) -> int:
         # 1. If a qubit is mapped to another qubit (iff sym.name is a _ret)
